@@ -34,5 +34,7 @@ main(void) {
 		if (arena[i] != 0x7e) touched ++;
 	printf("%s capacity=1 -> rc=%d reported length=%zu, %d byte(s) behind the buffer modified ('%.20s')\n",
 	    (rc == 0 || touched) ? "BAD" : "ok", rc, len, touched, arena + 1);
+	fflush(stdout);
+	free(arena);
 	return ((rc == 0 || touched) ? 1 : 0);
 }
